@@ -1,9 +1,11 @@
 """
-Oracle-only cases for field kinds the Lean serde model does not carry (DecimalNumber, Enum by value incl.
-IntEnum/Flag members that are falsy, date/time fields, formatted strings, SerializableField wrappers,
-_ignore_none classes): real classes are built from a small JSON spec, and the statement of C05 is executed on
-the real code.  These cases have no model counterpart (`line` returns None for them); they widen the
-failing-input search, never the theorems.
+Cases for field kinds outside the core declaration type (DecimalNumber, Enum by value incl. IntEnum/Flag members
+that are falsy, date/time fields, formatted strings, SerializableField wrappers, _ignore_none classes, compact
+wrappers): real classes are built from a small JSON spec, and the statements of C05 / C06 (and C02) are executed on the
+real code.  For the kinds the Lean model of the extension kinds carries (Sem/SerdeX.lean: DecimalNumber, Enum by value,
+DateField/DateTime and the core scalars, bare and inside Optional/Array/Deque/Set/Map/Tuple/nested class) a model line
+is produced as well (suite serdex: `xline`, `xcorrespond`); the other cases are oracle-only (`line` is None): they
+widen the failing-input search, never the theorems.
 """
 import datetime
 import decimal
@@ -39,7 +41,14 @@ class Word(enum.Enum):
     X = "x"
 
 
-ENUMS = {"Plain": Plain, "Level": Level, "Perm": Perm, "Word": Word}
+class Digits(enum.Enum):
+    ZERO = "0"
+    ONE = "1"
+    YES = "true"
+    NIL = "null"
+
+
+ENUMS = {"Plain": Plain, "Level": Level, "Perm": Perm, "Word": Word, "Digits": Digits}
 
 # leaf kinds: (field factory, value pool as JSON-able specs, exact round trip?)
 LEAVES = {
@@ -62,9 +71,15 @@ LEAVES = {
     "string": (lambda: String(), ["", "a", "True"], True),
     "float": (lambda: Float(), [["float", "0.0"], ["float", "2.5"]], True),
     "boolean": (lambda: Boolean(), [False, True], True),
+    # string-like values whose TEXT is itself a JSON document (a compact wrapper's serialized form is the bare string)
+    "string-jsonlike": (lambda: String(), ["0", "true", "null", "[1, 2]", '"q"', "1.5", "{}", "-3"], True),
+    "enum-by-value:Digits": (lambda: Enum(values=Digits, serialization_by_value=True),
+                             [["enum", "Digits", "ZERO"], ["enum", "Digits", "YES"], ["enum", "Digits", "NIL"], ["enum", "Digits", "ONE"]], True),
+    "date-compact": (lambda: DateField(date_format="%Y%m%d"), [["date", 2020, 2, 29], ["date", 1999, 12, 1]], True),
 }
+JSONLIKE_LEAVES = ("string-jsonlike", "enum-by-value:Digits", "date-compact")
 WRAPS = ["bare", "bare", "optional", "array", "deque", "set", "map", "tuple2", "array-of-array", "map-of-array",
-         "anyof-then-int", "array-of-optional", "map-of-optional"]
+         "anyof-then-int", "array-of-optional", "map-of-optional", "optional-union"]
 UNHASHABLE_IN_SET = ()
 
 
@@ -105,6 +120,8 @@ def build_field(leaf, wrap):
         return Map[String(), Array[mk()]]
     if wrap == "anyof-then-int":          # the value belongs to a LATER option than the leaf
         return AnyOf[mk(), Integer()]
+    if wrap == "optional-union":          # two non-None options and None: the value may belong to either
+        return AnyOf[mk(), Integer(), NoneField()]
     if wrap == "array-of-optional":
         return Array[AnyOf[mk(), NoneField()]]
     if wrap == "map-of-optional":
@@ -134,6 +151,8 @@ def build_value(leaf, wrap, picks):
         return {"a": list(vals), "b": []}
     if wrap == "anyof-then-int":
         return [0, 3, vals[0]][picks[0] % 3]
+    if wrap == "optional-union":
+        return [vals[0], 3, vals[0]][picks[0] % 3]
     if wrap == "array-of-optional":
         return [None] + list(vals) + [None]
     if wrap == "map-of-optional":
@@ -150,9 +169,9 @@ def gen_cases(rng, n):
         for fi in range(nf):
             leaf = rng.choice(leaves)
             wrap = rng.choice(WRAPS)
-            picks = [rng.randrange(8) for _ in range(rng.choice([0, 1, 2, 3]) if wrap not in ("bare", "optional", "tuple2", "anyof-then-int") else 1)]
+            picks = [rng.randrange(8) for _ in range(rng.choice([0, 1, 2, 3]) if wrap not in ("bare", "optional", "tuple2", "anyof-then-int", "optional-union") else 1)]
             fields.append({"name": f"f{fi}", "leaf": leaf, "wrap": wrap, "picks": picks,
-                           "unset": wrap == "optional" and rng.random() < 0.3})
+                           "unset": wrap in ("optional", "optional-union") and rng.random() < 0.3})
         cases.append({"suite": "extras", "fields": fields, "ignore_none": rng.random() < 0.2,
                       "nested": rng.random() < 0.25})
     # compact single-field wrappers (one required field, no additional properties), the flag declared by the class
@@ -174,8 +193,14 @@ def directed_cases():
     for leaf in sorted(LEAVES):
         for wrap in sorted(set(WRAPS)):
             out.append({"suite": "extras", "fields": [{"name": "f0", "leaf": leaf, "wrap": wrap,
-                                                       "picks": [0, 1] if wrap not in ("bare", "optional", "tuple2") else [0],
+                                                       "picks": [0, 1] if wrap not in ("bare", "optional", "tuple2", "optional-union") else [0],
                                                        "unset": False}], "ignore_none": False, "nested": False})
+    # compact single-field wrappers whose compact form is a bare string that READS like a JSON document
+    for leaf in JSONLIKE_LEAVES + ("string", "enum-by-value:Word", "datestring", "date", "timestring"):
+        for pick in range(len(LEAVES[leaf][1])):
+            for mode in ("own", "inherited"):
+                out.append({"suite": "extras", "fields": [{"name": "f0", "leaf": leaf, "wrap": "bare", "picks": [pick], "unset": False}],
+                            "ignore_none": False, "nested": False, "compact": mode})
     return out
 
 
@@ -209,7 +234,7 @@ def run_impl(case):
             exact = exact and LEAVES[f["leaf"]][2]
             if not f.get("unset"):
                 kw[f["name"]] = build_value(f["leaf"], f["wrap"], f["picks"] or [0])
-        body["_required"] = [f["name"] for f in case["fields"] if f["wrap"] != "optional"]
+        body["_required"] = [f["name"] for f in case["fields"] if f["wrap"] not in ("optional", "optional-union")]
         if case.get("ignore_none"):
             body["_ignore_none"] = True
         if case.get("compact"):
@@ -240,17 +265,30 @@ def run_impl(case):
 def _run_built(case, cls, kw, exact, outer):
     try:
         x = cls(**kw)
+        inner_x = x
         if outer is not None:
             cls, x = outer, outer(inner=x, tag="")
     except Exception as e:
         return {"skip": f"construction: {type(e).__name__}: {e}"[:200]}
     res = {"exact": exact, "kinds": [("compact-" + case["compact"] + ":" if case.get("compact") else "") + f"{f['wrap']}>{f['leaf']}" for f in case["fields"]]}
+    xcls = xdecl_class(case, nested=outer is not None)
     try:
         doc = Serializer(x).serialize()
         res["doc"] = repr(doc)[:300]
     except Exception as e:
         res["ser_exc"] = f"{type(e).__name__}: {e}"[:200]
         return res
+    if xcls is not None:
+        try:
+            from .. import dump
+            kwx = {"inner": inner_x, "tag": ""} if outer is not None else kw
+            res["xline"] = dict({"suite": "serdex", "cls": xcls, "kw": [[k, xwire(v)] for k, v in kwx.items()], "opts": XOPTS},
+                                **xtables(case, [x], [doc]))
+            res["x_inst"] = xwire(x)
+            res["x_ser"] = {"ok": dump.dump_value(doc)}
+        except Exception as e:
+            res.pop("xline", None)
+            res["xline_skipped"] = f"{type(e).__name__}: {e}"[:200]
     res["impure"] = pure_json_path(doc)
     if not case.get("compact"):
         # the documented JSON form, written down independently of the Serializer (image, below)
@@ -276,8 +314,13 @@ def _run_built(case, cls, kw, exact, outer):
         y = Deserializer(cls).deserialize(json.loads(text))
     except Exception as e:
         res["deser_exc"] = f"{type(e).__name__}: {e}"[:300]
+        if "xline" in res:
+            res["x_back"] = {"err": "InvalidStructureErr" if type(e).__name__ == "InvalidStructureErr" else "TypeError" if isinstance(e, TypeError)
+                             else "ValueError" if isinstance(e, ValueError) else type(e).__name__, "msg": str(e)[:200]}
         return res
     res["equal"] = bool(y == x)
+    if "xline" in res:
+        res["x_back"] = {"ok": xwire(y)}
     try:
         res["fixpoint"] = Serializer(y).serialize() == doc
     except Exception as e:
@@ -370,7 +413,7 @@ def run_corrupt(case):
         body[f["name"]] = build_field(f["leaf"], f["wrap"])
         if not f.get("unset"):
             kw[f["name"]] = build_value(f["leaf"], f["wrap"], f["picks"] or [0])
-    body["_required"] = [f["name"] for f in case["fields"] if f["wrap"] != "optional"]
+    body["_required"] = [f["name"] for f in case["fields"] if f["wrap"] not in ("optional", "optional-union")]
     cls = type("X", (Structure,), body)
     doc = json.loads(json.dumps(Serializer(cls(**kw)).serialize()))
     fi, ci, which = case["corrupt"]
@@ -414,7 +457,8 @@ def judge_corrupt(case, impl):
 SHAPES = {"bare": "L", "optional": ("opt", "L"), "array": ("arr", "L"), "deque": ("deq", "L"), "set": ("set", "L"),
           "map": ("map", "L"), "tuple2": ("tup2", "L"), "array-of-array": ("arr", ("arr", "L")),
           "map-of-array": ("map", ("arr", "L")), "anyof-then-int": ("anyint", "L"),
-          "array-of-optional": ("arr", ("opt", "L")), "map-of-optional": ("map", ("opt", "L"))}
+          "array-of-optional": ("arr", ("opt", "L")), "map-of-optional": ("map", ("opt", "L")),
+          "optional-union": ("opt", ("anyint", "L"))}
 
 # number-typed documents of several magnitudes (epoch-like ones included: DateTime reads an int between 1e9 and
 # 2e9 as a timestamp, and so does its constructor; a float is neither a str nor an int)
@@ -436,6 +480,8 @@ def image_leaf(leaf, v):
         return v.name
     if leaf == "date":
         return v.strftime("%Y-%m-%d")
+    if leaf == "date-compact":
+        return v.strftime("%Y%m%d")
     if leaf == "datetime":
         return v.strftime("%m/%d/%y %H:%M:%S")
     return v
@@ -518,7 +564,7 @@ def _build_plain(case):
         body[f["name"]] = build_field(f["leaf"], f["wrap"])
         if not f.get("unset"):
             kw[f["name"]] = build_value(f["leaf"], f["wrap"], f["picks"] or [0])
-    body["_required"] = [f["name"] for f in case["fields"] if f["wrap"] != "optional"]
+    body["_required"] = [f["name"] for f in case["fields"] if f["wrap"] not in ("optional", "optional-union")]
     if case.get("ignore_none"):
         body["_ignore_none"] = True
     return type("X", (Structure,), body), kw
@@ -600,11 +646,22 @@ def run_exact(case):
     try:
         y = Deserializer(cls).deserialize(json.loads(json.dumps(doc)))
         res["out"] = "accepted"
+        res["x_deser"] = {"ok": xwire(y)}
     except Exception as e:
         res["out"] = "rejected"
         res["exc"] = type(e).__name__
         res["documented_exc"] = isinstance(e, (TypeError, ValueError))
         res["msg"] = str(e)[:200]
+        res["x_deser"] = {"err": "InvalidStructureErr" if type(e).__name__ == "InvalidStructureErr" else "TypeError" if isinstance(e, TypeError)
+                          else "ValueError" if isinstance(e, ValueError) else type(e).__name__, "msg": str(e)[:200]}
+    xcls = xdecl_class(case)
+    if xcls is not None:
+        try:
+            from .. import dump
+            res["xline"] = dict({"suite": "serdex", "cls": xcls, "doc": dump.dump_value(json.loads(json.dumps(doc))), "opts": XOPTS},
+                                **xtables(case, [y] if y is not None else [], [doc]))
+        except Exception as e:
+            res["xline_skipped"] = f"{type(e).__name__}: {e}"[:200]
     nan_doc = case.get("corrupt") is not None and CORRUPTIONS[case["corrupt"][1]] in NAN_STRINGS
     if y is not None and not nan_doc:       # (a NaN is not equal to itself; comparing a signalling NaN raises)
         if expected is not None:
@@ -626,7 +683,7 @@ def judge_exact(case, impl):
                       f"Deserializer rejected {impl['doc']} with {impl['exc']} ({impl['msg']}) instead of TypeError/ValueError"))
     # AnyOf[DecimalNumber(bounds), Integer]: both options read a JSON number, and the first one deserializes every
     # number (its bounds are the constructor's business): indistinguishable options are outside the statement
-    ambiguous = any(f["wrap"] == "anyof-then-int" and f["leaf"] == "decimal-bounded" for f in case["fields"]) or impl.get("ambiguous_set")
+    ambiguous = any(f["wrap"] in ("anyof-then-int", "optional-union") and f["leaf"] == "decimal-bounded" for f in case["fields"]) or impl.get("ambiguous_set")
     if impl["ctor"] == "accepted" and impl["out"] == "rejected":
         if not ambiguous:
             fails.append((f"extras:rejects-image:{site}",
@@ -645,6 +702,243 @@ def judge_exact(case, impl):
     return fails
 
 
+# ------------------------------------------------------------------ the Lean model of the extension kinds (suite serdex)
+#
+# Sem/SerdeX.lean carries DecimalNumber, Enum by value, DateField / DateTime and the core scalars, bare and inside
+# Optional / Array / Deque / Set / Map / Tuple / a nested class.  For the cases it covers a model line is produced:
+# the class as an XDecl, the values on the wire, and the answers of float(Decimal) / strptime / strftime as tables.
+
+TEMPORAL = {"date": ("date", "%Y-%m-%d", False), "date-compact": ("date", "%Y%m%d", False),
+            "datetime": ("datetime", "%m/%d/%y %H:%M:%S", True)}
+BASE_LEAVES = {"integer": {"k": "integer"}, "string": {"k": "string"}, "float": {"k": "float"}, "boolean": {"k": "boolean"},
+               "string-jsonlike": {"k": "string"}}
+
+
+def xdecl_leaf(leaf):
+    from .. import dump
+    if leaf == "decimal":
+        return {"k": "decimal"}
+    if leaf == "decimal-bounded":
+        return {"k": "decimal", "min": [0, 1], "max": [100, 1]}
+    if leaf.startswith("enum-by-value:"):
+        ecls = ENUMS[leaf.split(":")[1]]
+        return {"k": "enumVal", "cls": ecls.__name__, "members": [[m.name, dump.dump_value(m.value)] for m in ecls],
+                "mixin": issubclass(ecls, int)}
+    if leaf.startswith("enum-by-name:"):
+        ecls = ENUMS[leaf.split(":")[1]]
+        if issubclass(ecls, (int, str)):
+            return None     # members equal to their values: the core enumCls declaration does not carry that
+        return {"k": "base", "f": {"k": "enumCls", "cls": ecls.__name__, "names": [m.name for m in ecls]}}
+    if leaf in TEMPORAL:
+        ty, fmt, ints = TEMPORAL[leaf]
+        return {"k": "temporal", "ty": ty, "fmt": fmt, "ints": ints}
+    if leaf in BASE_LEAVES:
+        return {"k": "base", "f": dict(BASE_LEAVES[leaf])}
+    return None
+
+
+def xdecl_shape(shape, leafdecl):
+    if shape == "L":
+        return leafdecl
+    tag, sub = shape
+    inner = xdecl_shape(sub, leafdecl)
+    if inner is None:
+        return None
+    if tag == "opt":
+        return {"k": "opt", "x": inner}
+    if tag == "arr":
+        return {"k": "seqOf", "x": inner}
+    if tag == "deq":
+        return {"k": "seqOf", "seq": "deque", "x": inner}
+    if tag == "set":
+        return {"k": "setOf", "x": inner}
+    if tag == "map":
+        return {"k": "mapStr", "x": inner}
+    if tag == "tup2":
+        return {"k": "tuplePos", "xs": [inner, {"k": "base", "f": {"k": "integer"}}]}
+    return None         # AnyOf[leaf, Integer]: not in the model
+
+
+def xdecl_class(case, nested=False):
+    if case.get("compact"):
+        return None
+    fields = []
+    for f in case["fields"]:
+        leafdecl = xdecl_leaf(f["leaf"])
+        d = xdecl_shape(SHAPES[f["wrap"]], leafdecl) if leafdecl is not None else None
+        if d is None:
+            return None
+        fields.append([f["name"], d])
+    cls = {"k": "struct", "name": "X", "required": [f["name"] for f in case["fields"] if f["wrap"] not in ("optional", "optional-union")],
+           "addl": True, "ignoreNone": bool(case.get("ignore_none")), "accepts": ["X"], "fields": fields}
+    if nested:
+        cls = {"k": "struct", "name": "Outer", "required": ["inner"], "addl": True, "accepts": ["Outer"],
+               "fields": [["inner", cls], ["tag", {"k": "base", "f": {"k": "string"}}]]}
+    return cls
+
+
+def xwire(v):
+    import collections
+    from .. import dump
+    if isinstance(v, datetime.datetime):
+        return {"x": "datetime:" + v.isoformat()}
+    if isinstance(v, datetime.date):
+        return {"x": "date:" + v.isoformat()}
+    if isinstance(v, enum.Enum) or v is None or isinstance(v, (bool, int, float, str, decimal.Decimal)):
+        return dump.dump_value(v)
+    if isinstance(v, collections.deque):
+        return {"q": [xwire(x) for x in collections.deque.__iter__(v)]}
+    if isinstance(v, list):
+        return {"l": [xwire(x) for x in list.__iter__(v)]}
+    if isinstance(v, tuple):
+        return {"t": [xwire(x) for x in v]}
+    if isinstance(v, frozenset):
+        return {"fs": [xwire(x) for x in v]}
+    if isinstance(v, set):
+        return {"s": [xwire(x) for x in v]}
+    if isinstance(v, dict):
+        return {"m": [[xwire(k), xwire(x)] for k, x in dict.items(v)]}
+    if isinstance(v, Structure):
+        return {"o": [type(v).__name__, [[k, xwire(x)] for k, x in v.__dict__.items() if k not in dump.INTERNAL]]}
+    return dump.dump_value(v)
+
+
+def _walk(v, fn):
+    import collections
+    fn(v)
+    if isinstance(v, Structure):
+        for x in list(v.__dict__.values()):
+            _walk(x, fn)
+    elif isinstance(v, dict):
+        for k, x in dict.items(v):
+            _walk(k, fn)
+            _walk(x, fn)
+    elif isinstance(v, (list, tuple, set, frozenset, collections.deque)):
+        for x in list(v):
+            _walk(x, fn)
+
+
+def xtables(case, values, docs):
+    """the oracle answers the model needs: float(d) for every Decimal among `values` (after conversion by the real
+    constructor), strftime for every date / datetime, strptime for every string of `docs` under every temporal
+    format the class uses"""
+    from .. import dump
+    fmts = sorted({TEMPORAL[f["leaf"]][:2] for f in case["fields"] if f["leaf"] in TEMPORAL})
+    decs, temps, strs = [], [], []
+
+    def see(v):
+        if isinstance(v, decimal.Decimal) and v.is_finite():
+            decs.append(v)
+        elif isinstance(v, bool):
+            pass
+        elif isinstance(v, (int, float)) and not isinstance(v, enum.Enum) and v == v and abs(v) != float("inf"):
+            decs.append(decimal.Decimal(v))
+        elif isinstance(v, (datetime.date, datetime.datetime)):
+            temps.append(v)
+        elif isinstance(v, str) and not isinstance(v, enum.Enum):
+            strs.append(v)
+    for v in values:
+        _walk(v, see)
+    for d in docs:
+        _walk(d, see)
+    tf, seen = [], set()
+    for d in decs:
+        key = tuple(dump.q_of(d))
+        if key not in seen:
+            seen.add(key)
+            try:
+                tf.append([list(key), dump.q_of(float(d))])
+            except OverflowError:
+                pass
+    fm, ps = [], []
+    for ty, fmt in fmts:
+        for t in temps:
+            if (ty == "datetime") == isinstance(t, datetime.datetime):
+                try:
+                    fm.append([ty, fmt, xwire(t)["x"], t.strftime(fmt)])
+                except Exception:
+                    pass
+        for sv in sorted(set(strs + [r[3] for r in fm if r[0] == ty and r[1] == fmt])):
+            try:
+                dt = datetime.datetime.strptime(sv, fmt)
+                ps.append([ty, fmt, sv, xwire(dt if ty == "datetime" else dt.date())["x"]])
+            except ValueError:
+                ps.append([ty, fmt, sv, None])
+    return {"toFloat": tf, "format": fm, "parse": ps}
+
+
+XOPTS = {"keepUndefined": True, "ignoreInvalidAddl": True}
+
+
+def _canon_wire_sets(decl, w):
+    """arrays of a serialized document that came from a Set sorted (the model iterates a set in insertion order)"""
+    if decl is None or not isinstance(w, dict):
+        return w
+    k = decl["k"]
+    key = lambda x: json.dumps(x, sort_keys=True)
+    if k == "opt":
+        return _canon_wire_sets(decl["x"], w)
+    if "l" in w:
+        if k == "setOf":
+            return {"l": sorted((_canon_wire_sets(decl["x"], x) for x in w["l"]), key=key)}
+        if k == "seqOf":
+            return {"l": [_canon_wire_sets(decl["x"], x) for x in w["l"]]}
+        if k == "tuplePos":
+            return {"l": [_canon_wire_sets(decl["xs"][i] if i < len(decl["xs"]) else None, x) for i, x in enumerate(w["l"])]}
+    if "m" in w:
+        if k == "struct":
+            fd = dict((n, f) for n, f in decl["fields"])
+            return {"m": sorted(([kk, _canon_wire_sets(fd.get(kk), v)] for kk, v in w["m"]), key=lambda kv: key(kv[0]))}
+        if k == "mapStr":
+            return {"m": sorted(([kk, _canon_wire_sets(decl["x"], v)] for kk, v in w["m"]), key=lambda kv: key(kv[0]))}
+    return w
+
+
+def _xdiff(what, m, i):
+    from .. import dump
+    if m is None or i is None:
+        return None
+    if str(m.get("err", "")).startswith("outside-model"):
+        return None
+    if "ok" in m:
+        if "ok" not in i:
+            return f"{what}: model ok, real code raises {i.get('err')}: {i.get('msg')}"
+        if dump.canon(m["ok"]) != dump.canon(i["ok"]):
+            return f"{what}: results differ: model {json.dumps(dump.canon(m['ok']))[:300]} impl {json.dumps(dump.canon(i['ok']))[:300]}"
+        return None
+    if "ok" in i:
+        return f"{what}: model raises {m['err']}, real code ok: {json.dumps(i['ok'])[:300]}"
+    if m["err"] != i["err"]:
+        return f"{what}: exception class differs: model {m['err']}, real code {i['err']}: {i.get('msg')}"
+    return None
+
+
+def xline(case, impl):
+    l = impl.get("xline")
+    return dict(l) if l else None
+
+
+def xcorrespond(case, impl, model):
+    """model (Sem/SerdeX.lean through the driver) vs real code, for the cases that have a model line"""
+    if not model or not impl.get("xline"):
+        return None
+    cls = impl["xline"]["cls"]
+    if "x_inst" in impl:
+        if "ok" not in model.get("inst", {}):
+            if str(model.get("inst", {}).get("err", "")).startswith("outside-model"):
+                return None
+            return f"model cannot construct the instance: {model.get('inst')}"
+        d = _xdiff("constructor", model["inst"], {"ok": impl["x_inst"]})
+        if d:
+            return d
+        ms, is_ = model.get("ser"), impl.get("x_ser")
+        if ms and is_ and "ok" in ms and "ok" in is_:
+            ms = {"ok": _canon_wire_sets(cls, ms["ok"])}
+            is_ = {"ok": _canon_wire_sets(cls, is_["ok"])}
+        return _xdiff("serialize", ms, is_) or _xdiff("deserialize(serialize(x))", model.get("back"), impl.get("x_back"))
+    return _xdiff("deserialize", model.get("deser"), impl.get("x_deser"))
+
+
 # ------------------------------------------------------------------ C02: ill-typed constructor arguments
 
 CTOR_BAD = [5, 2.5, None, True, ["www.example.com"], {"host": "x"}, ("a", "b"), object, b"a.com", "n/a", "", -1, [], {},
@@ -660,7 +954,7 @@ def _ctor_leaves():
         "string-bounded": (lambda: String(minLength=2, maxLength=4, pattern="^[a-z]+$"), ["ab", "abcd"], True),
         "integer-bounded": (lambda: Integer(minimum=0, maximum=9), [0, 9], True),
     }
-    return {**LEAVES, **extra}
+    return {**{k: v for k, v in LEAVES.items() if k not in JSONLIKE_LEAVES}, **extra}
 
 
 CTOR_LEAVES = None
@@ -886,4 +1180,146 @@ def judge_decimal_deser(case, impl):
             fails.append((f"extras:decimal:differs-from-constructor:{site}", f"{pr['x']}: Deserializer gives {pr.get('deser_stored')}, the constructor {pr.get('ctor_stored')}"))
         if d not in ("ok", "TypeError", "ValueError", None):
             fails.append((f"extras:wrong-exception:{d}:{site}", f"Deserializer given {pr['x']} raised {d}"))
+    return fails
+
+
+# ------------------------------------------------------------------ C02: DateTime / DateField / TimeField (oracle-only)
+# The documented decision, written from the docstrings (independent of the library): DateTime takes a datetime or a
+# string in its format (and, undocumented but tested, an int Unix timestamp strictly between 10**9 and 2*10**9);
+# DateField takes a date, a datetime (its date part) or a string in its format; TimeField takes a time or a string in
+# its format.  Everything else is refused with TypeError / ValueError - whatever its magnitude.
+
+TEMPORAL_VALUES = [
+    ["datetime", 2020, 1, 31, 23, 59, 1], ["date", 2020, 1, 31], ["time", 23, 59, 1],
+    "01/31/20 07:15:45", "2020-01-31", "23:59:01", "13/31/20 07:15:45", "2020-02-30", "24:00:00", "", "n/a", "1500000000",
+    0, 1, -1, True, False, 12122020, 999999999, 10 ** 9, 10 ** 9 + 1, 1500000000, 2 * 10 ** 9 - 1, 2 * 10 ** 9, 2 * 10 ** 9 + 1, 2 ** 31 - 1, 2 ** 31,
+    2 ** 32, 10 ** 10, 10 ** 12, 10 ** 15, 10 ** 18, 2 ** 63 - 1, 2 ** 63, 2 ** 64, 10 ** 20, 10 ** 30, 10 ** 100, -10 ** 9 - 5, -1500000000, -10 ** 20,
+    ["float", "0.0"], ["float", "1.5e9"], ["float", "1e15"], ["float", "1e20"], ["float", "1e308"], ["float", "inf"], ["float", "-inf"], ["float", "nan"],
+    ["float", "-1e18"], ["dec", "1500000000"], ["dec", "1e30"], None, ["list"], ["dict"], ["bytes"],
+]
+TEMPORAL_LEAVES = ["datetime", "date", "timefield", "datetime-fmt"]
+TEMPORAL_WRAPS = ["bare", "optional", "array", "map", "anyof-then-str", "not", "tuple2", "set"]
+
+
+def _temporal_field(leaf):
+    from typedpy.extfields import TimeField
+    return {"datetime": lambda: DateTime(), "date": lambda: DateField(), "timefield": lambda: TimeField(),
+            "datetime-fmt": lambda: DateTime(datetime_format="%Y-%m-%d %H:%M")}[leaf]()
+
+
+def _temporal_value(spec):
+    if isinstance(spec, list):
+        if spec[0] == "time":
+            return datetime.time(*spec[1:])
+        if spec[0] == "list":
+            return [2020, 1, 31]
+        if spec[0] == "dict":
+            return {"year": 2020}
+        if spec[0] == "bytes":
+            return b"2020-01-31"
+        return load(spec)
+    return spec
+
+
+def temporal_expected(leaf, v):
+    """(accepted?, documented normal form or None)"""
+    def parse(s, fmt):
+        try:
+            return datetime.datetime.strptime(s, fmt)
+        except ValueError:
+            return None
+    if leaf in ("datetime", "datetime-fmt"):
+        fmt = "%m/%d/%y %H:%M:%S" if leaf == "datetime" else "%Y-%m-%d %H:%M"
+        if isinstance(v, datetime.datetime):
+            return True, v
+        if isinstance(v, str):
+            d = parse(v, fmt)
+            return d is not None, d
+        if isinstance(v, int) and not isinstance(v, bool) and 10 ** 9 < v < 2 * 10 ** 9:
+            return True, datetime.datetime.fromtimestamp(v)
+        return False, None
+    if leaf == "date":
+        if isinstance(v, datetime.datetime):
+            return True, v.date()
+        if isinstance(v, datetime.date):
+            return True, v
+        if isinstance(v, str):
+            d = parse(v, "%Y-%m-%d")
+            return d is not None, (d.date() if d else None)
+        return False, None
+    if leaf == "timefield":
+        if isinstance(v, datetime.time):
+            return True, v
+        if isinstance(v, str):
+            d = parse(v, "%H:%M:%S")
+            return d is not None, (d.time() if d else None)
+        return False, None
+    raise ValueError(leaf)
+
+
+def temporal_cases():
+    out = []
+    for leaf in TEMPORAL_LEAVES:
+        for wrap in TEMPORAL_WRAPS:
+            for vi in range(len(TEMPORAL_VALUES)):
+                if wrap not in ("bare", "array") and vi % 2 != len(wrap) % 2 and not (24 <= vi <= 42):
+                    continue      # every value bare and as an Array element; the ints of every magnitude everywhere
+                out.append({"suite": "extras-temporal", "leaf": leaf, "wrap": wrap, "value": vi})
+    return out
+
+
+def run_temporal(case):
+    leaf, wrap = case["leaf"], case["wrap"]
+    v = _temporal_value(TEMPORAL_VALUES[case["value"]])
+    mk = lambda: _temporal_field(leaf)
+    try:
+        field = {"bare": mk, "optional": lambda: AnyOf[mk(), NoneField()], "array": lambda: Array[mk()], "map": lambda: Map[String(), mk()],
+                 "anyof-then-str": lambda: AnyOf[mk(), Boolean()], "not": lambda: typedpy.NotField[mk()], "tuple2": lambda: Tuple[mk(), Integer()],
+                 "set": lambda: Set[mk()]}[wrap]()
+        cls = type("T", (Structure,), {"f": field, "_required": []})
+    except Exception as e:
+        return {"skip": f"class: {type(e).__name__}: {e}"[:200]}
+    try:
+        arg = {"bare": lambda: v, "optional": lambda: v, "array": lambda: [v], "map": lambda: {"k": v}, "anyof-then-str": lambda: v, "not": lambda: v,
+               "tuple2": lambda: (v, 1), "set": lambda: {v}}[wrap]()
+    except TypeError:
+        return {"skip": "unhashable element"}
+    leaf_of = {"bare": lambda s: s, "optional": lambda s: s, "array": lambda s: s[0], "map": lambda s: s["k"], "anyof-then-str": lambda s: s,
+               "not": lambda s: s, "tuple2": lambda s: s[0], "set": lambda s: next(iter(s))}[wrap]
+    exp_ok, exp_norm = temporal_expected(leaf, v)
+    if wrap == "optional" and v is None:
+        exp_ok, exp_norm = True, None
+    if wrap == "anyof-then-str" and isinstance(v, bool):
+        exp_ok, exp_norm = True, v
+    if wrap == "not":
+        exp_ok, exp_norm = (not exp_ok), v
+    res = {"site": f"{wrap}>{leaf}", "value": repr(v)[:80], "expect_ok": exp_ok}
+    try:
+        x = cls(f=arg)
+        res["out"] = "accepted"
+        stored = leaf_of(x.f)
+        res["stored"] = repr(stored)[:80]
+        res["normal"] = bool(type(stored) is type(exp_norm) and stored == exp_norm) if exp_ok else None
+        res["expected_norm"] = repr(exp_norm)[:80]
+    except Exception as e:
+        res["out"] = "rejected"
+        res["exc"] = type(e).__name__
+        res["documented_exc"] = isinstance(e, (TypeError, ValueError))
+        res["msg"] = str(e)[:160]
+    return res
+
+
+def judge_temporal(case, impl):
+    if "skip" in impl:
+        return []
+    site = impl["site"]
+    fails = []
+    if impl["out"] == "rejected" and not impl["documented_exc"]:
+        fails.append((f"extras:wrong-exception:{impl['exc']}:ctor:{site}", f"constructor given f={impl['value']} raised {impl['exc']} ({impl['msg']}) instead of TypeError/ValueError"))
+    if impl["out"] == "accepted" and not impl["expect_ok"]:
+        fails.append((f"extras:temporal:accepts-undocumented:{site}", f"{site} accepts {impl['value']} (stored {impl.get('stored')}), which the documentation excludes"))
+    if impl["out"] == "rejected" and impl["expect_ok"]:
+        fails.append((f"extras:temporal:rejects-documented:{site}", f"{site} rejects {impl['value']}: {impl.get('exc')}: {impl.get('msg')}"))
+    if impl["out"] == "accepted" and impl["expect_ok"] and impl.get("normal") is False:
+        fails.append((f"extras:temporal:normal-form:{site}", f"{site} given {impl['value']} reads back {impl.get('stored')}, documented {impl.get('expected_norm')}"))
     return fails
